@@ -19,6 +19,8 @@ import AQ.Proofs.H3Roundtrip2
 import AQ.Proofs.H3Conn
 import AQ.Proofs.H3Block
 import AQ.Proofs.H3Uni
+import AQ.Proofs.H3Multi
+import AQ.Proofs.H3Lift
 namespace AQ.Props.C14
 open AQ AQ.H3
 
@@ -29,52 +31,50 @@ variable {σ : Type}
     only on the bytes of each QUIC stream, not on how those bytes are split into
     deliveries": request / push stream, quirk-free parser
     (`truncatedNoError = silentFrameNoEnd = logDecode = false`), QPACK oracle
-    that never answers "blocked" for this stream (`NonBlocking`; otherwise
-    arbitrary and stateful — dynamic table, validators are parameters).
+    arbitrary and stateful (dynamic table, validators are parameters).  The oracle
+    MAY answer "blocked": the stream then stays blocked and buffers what follows
+    (nothing is delivered on the encoder stream in this theorem; for schedules
+    with encoder-stream deliveries see `schedule_independent_stream` below).
 
     For EVERY byte string `b = c₁ ++ … ++ cₙ ++ last` (any of the pieces may be
     empty), delivering `c₁ … cₙ` without FIN and then `last` with the FIN flag
     `fin` is `REq` to delivering `b` at once with `fin`. -/
-theorem chunk_independent (o : Oracle σ) (cfg : Cfg) (hnb : NonBlocking o)
-    (ht : cfg.k.truncatedNoError = false) (hsil : cfg.k.silentFrameNoEnd = false)
+theorem chunk_independent (o : Oracle σ) (cfg : Cfg) (ht : cfg.k.truncatedNoError = false) (hsil : cfg.k.silentFrameNoEnd = false)
     (hlog : cfg.k.logDecode = false) {s : Stream} (hs : Fresh s) (q : σ)
     (chunks : List Bytes) (last : Bytes) (fin : Bool) :
     REq (feedAll o cfg s q (chunks.map (·, false) ++ [(last, fin)]))
         (recvReq o cfg s q (chunks.flatten ++ last) fin) :=
-  feedAll_chunks o cfg hnb ht hsil hlog hs q chunks last fin
+  feedAll_chunks o cfg ht hsil hlog hs q chunks last fin
 
 /-- the variant "FIN is delivered alone with empty data": `c₁ … cₙ` without FIN,
     then `(b"", FIN)`, equals one delivery of all the bytes with FIN. -/
-theorem chunk_independent_fin_alone (o : Oracle σ) (cfg : Cfg) (hnb : NonBlocking o)
-    (ht : cfg.k.truncatedNoError = false) (hsil : cfg.k.silentFrameNoEnd = false)
+theorem chunk_independent_fin_alone (o : Oracle σ) (cfg : Cfg) (ht : cfg.k.truncatedNoError = false) (hsil : cfg.k.silentFrameNoEnd = false)
     (hlog : cfg.k.logDecode = false) {s : Stream} (hs : Fresh s) (q : σ) (chunks : List Bytes) :
     REq (feedAll o cfg s q (chunks.map (·, false) ++ [([], true)]))
         (recvReq o cfg s q chunks.flatten true) := by
-  have := chunk_independent o cfg hnb ht hsil hlog hs q chunks [] true
+  have := chunk_independent o cfg ht hsil hlog hs q chunks [] true
   simpa using this
 
 /-- two chunkings of the same bytes agree with each other -/
-theorem chunk_independent_any_two (o : Oracle σ) (cfg : Cfg) (hnb : NonBlocking o)
-    (ht : cfg.k.truncatedNoError = false) (hsil : cfg.k.silentFrameNoEnd = false)
+theorem chunk_independent_any_two (o : Oracle σ) (cfg : Cfg) (ht : cfg.k.truncatedNoError = false) (hsil : cfg.k.silentFrameNoEnd = false)
     (hlog : cfg.k.logDecode = false) {s : Stream} (hs : Fresh s) (q : σ)
     (chunks chunks' : List Bytes) (last last' : Bytes) (fin : Bool)
     (hb : chunks.flatten ++ last = chunks'.flatten ++ last') :
     REq (feedAll o cfg s q (chunks.map (·, false) ++ [(last, fin)]))
         (feedAll o cfg s q (chunks'.map (·, false) ++ [(last', fin)])) := by
-  have h1 := chunk_independent o cfg hnb ht hsil hlog hs q chunks last fin
-  have h2 := chunk_independent o cfg hnb ht hsil hlog hs q chunks' last' fin
+  have h1 := chunk_independent o cfg ht hsil hlog hs q chunks last fin
+  have h2 := chunk_independent o cfg ht hsil hlog hs q chunks' last' fin
   rw [hb] at h1
   exact REq.trans h1 (REq.symm h2)
 
 /-- unfolded: events of a successful run have the same normal form for every stream -/
-theorem chunk_independent_events (o : Oracle σ) (cfg : Cfg) (hnb : NonBlocking o)
-    (ht : cfg.k.truncatedNoError = false) (hsil : cfg.k.silentFrameNoEnd = false)
+theorem chunk_independent_events (o : Oracle σ) (cfg : Cfg) (ht : cfg.k.truncatedNoError = false) (hsil : cfg.k.silentFrameNoEnd = false)
     (hlog : cfg.k.logDecode = false) {s : Stream} (hs : Fresh s) (q : σ)
     (chunks : List Bytes) (last : Bytes) (fin : Bool) (s' : Stream) (q' : σ) (evs : List Event)
     (hw : recvReq o cfg s q (chunks.flatten ++ last) fin = .ok (s', q', evs)) :
     ∃ evs', feedAll o cfg s q (chunks.map (·, false) ++ [(last, fin)]) = .ok (s', q', evs') ∧
       ∀ sid, normOf sid evs' = normOf sid evs := by
-  have h := chunk_independent o cfg hnb ht hsil hlog hs q chunks last fin
+  have h := chunk_independent o cfg ht hsil hlog hs q chunks last fin
   rw [hw] at h
   cases hf : feedAll o cfg s q (chunks.map (·, false) ++ [(last, fin)]) with
   | error x => rw [hf] at h; simp [REq] at h
@@ -86,13 +86,12 @@ theorem chunk_independent_events (o : Oracle σ) (cfg : Cfg) (hnb : NonBlocking 
     exact ⟨c, rfl, hn⟩
 
 /-- unfolded: a run that ends in a ProtocolError ends in the same one for every chunking -/
-theorem chunk_independent_error (o : Oracle σ) (cfg : Cfg) (hnb : NonBlocking o)
-    (ht : cfg.k.truncatedNoError = false) (hsil : cfg.k.silentFrameNoEnd = false)
+theorem chunk_independent_error (o : Oracle σ) (cfg : Cfg) (ht : cfg.k.truncatedNoError = false) (hsil : cfg.k.silentFrameNoEnd = false)
     (hlog : cfg.k.logDecode = false) {s : Stream} (hs : Fresh s) (q : σ)
     (chunks : List Bytes) (last : Bytes) (fin : Bool) (x : Err)
     (hw : recvReq o cfg s q (chunks.flatten ++ last) fin = .error x) :
     feedAll o cfg s q (chunks.map (·, false) ++ [(last, fin)]) = .error x := by
-  have h := chunk_independent o cfg hnb ht hsil hlog hs q chunks last fin
+  have h := chunk_independent o cfg ht hsil hlog hs q chunks last fin
   rw [hw] at h
   cases hf : feedAll o cfg s q (chunks.map (·, false) ++ [(last, fin)]) with
   | error y => rw [hf] at h; simp only [REq] at h; rw [h]
@@ -215,13 +214,13 @@ theorem blockedPush_fixed :
     close code and, unless the HTTP/3 layer closed the connection, the same
     connection state (settings, stream table, QPACK state) and event lists of
     the same per-stream normal form. -/
-theorem chunk_independent_connection (o : Oracle σ) (hnb : NonBlocking o) (c : Conn σ)
+theorem chunk_independent_connection (o : Oracle σ) (c : Conn σ)
     (ht : c.cfg.k.truncatedNoError = false) (hsil : c.cfg.k.silentFrameNoEnd = false)
     (hlog : c.cfg.k.logDecode = false) (hnd : c.isDone = false) (sid : Nat) (hb : isUni sid = false)
     (hs : Fresh (streamOf c sid)) (chunks : List Bytes) (last : Bytes) (fin : Bool) :
     CEq (feedConn o c sid (chunks.map (·, false) ++ [(last, fin)]))
         (handleEvent o c (.streamData sid (chunks.flatten ++ last) fin)) :=
-  conn_chunk_independent o hnb c ht hsil hlog hnd sid hb hs chunks last fin
+  conn_chunk_independent o c ht hsil hlog hnd sid hb hs chunks last fin
 
 /-! ## unidirectional streams -/
 
@@ -239,24 +238,25 @@ theorem chunk_independent_connection (o : Oracle σ) (hnb : NonBlocking o) (c : 
     Oracle hypotheses, stated explicitly: `DecAdditive o` / `EncAdditive o` — the
     QPACK stream consumers are chunk-additive (`feed (a ++ b)` = `feed a; feed b`,
     unblocked ids concatenated, an error of a part is an error of the whole,
-    `feed b""` is a no-op); `NonBlocking o` for the header blocks of push streams.
+    `feed b""` is a no-op).  Header blocks of push streams may block.
 
     `_partial`, what is missing: (1) `uniCore` is `_receive_stream_data_uni` up to,
     not including, the `for stream_id in unblocked_streams` loop and the store
-    into the stream table (with an additive oracle the resumes of the chunked run
-    happen between the feeds, which needs `Qpack.deterministic`-style commutation);
+    into the stream table (the chunked encoder stream WITH the resumes between the
+    feeds is `schedule_independent_stream` / `schedule_independent_streams_partial`
+    below, for the decoder `qpackOracle Q`);
     (2) `hctl`: a FIN is not considered on the control stream — there the close
     code depends on the chunking in the CODE: `00 0d 01 05` + FIN in one delivery
     closes with H3_CLOSED_CRITICAL_STREAM (0x104), with the FIN delivered alone
     with H3_MISSING_SETTINGS (0x10a); both close the connection, no events. -/
-theorem uni_chunk_independent_partial (o : Oracle σ) (hnb : NonBlocking o) (hdec : DecAdditive o)
+theorem uni_chunk_independent_partial (o : Oracle σ) (hdec : DecAdditive o)
     (henc : EncAdditive o) (c : Conn σ) (ht : c.cfg.k.truncatedNoError = false)
     (hsil : c.cfg.k.silentFrameNoEnd = false) (hlog : c.cfg.k.logDecode = false)
     {s : Stream} (hs : UniFresh s) (chunks : List Bytes) (last : Bytes) (fin : Bool)
     (hctl : fin = false ∨ ∀ r, pullVarint (chunks.flatten ++ last) ≠ some (0, r)) :
     UEq (uniFeed o c s (chunks.map (·, false) ++ [(last, fin)]))
         (uniCore o c s (chunks.flatten ++ last) fin) :=
-  uniFeed_chunks o hnb hdec henc c ht hsil hlog hs chunks last fin hctl
+  uniFeed_chunks o hdec henc c ht hsil hlog hs chunks last fin hctl
 
 /-! ## interleaving with the QPACK encoder stream -/
 
@@ -281,6 +281,10 @@ def QpackDeterministic (o : Oracle σ) : Prop :=
     Under `QpackDeterministic` both yield the same error, or the same final
     `H3Stream`, decoder state and normal form of events.
 
+    Superseded, for the decoder `qpackOracle Q` under `QpackLaws`, by
+    `schedule_independent_stream` (any chunking of both streams, any interleaving, block
+    at any position); kept because it holds for ANY oracle satisfying `QpackDeterministic`.
+
     `_partial`, what is missing: both streams in single deliveries (chunked
     deliveries while blocked are not covered); the blocked frame is the first
     HEADERS frame of the stream (not trailers, not PUSH_PROMISE); one blocked
@@ -300,6 +304,272 @@ theorem interleave_independent_partial (o : Oracle σ) (cfg : Cfg) (hdet : Qpack
   obtain ⟨hs, qf, hres, hdecA⟩ := hdet q qb qb' qa S.p.streamId blk eb hB1 hB2 hA1
   exact ⟨recvReq_blocks o cfg varint_law hS hrs q qb blk fH rest fin hfH hB1,
     resume_eq_unblocked o cfg varint_law hS hrs hbfs hbp qa qb' qf blk fH rest fin hs hfH hres hdecA⟩
+
+/-! ## any schedule: chunking AND interleaving with the QPACK encoder stream
+
+QPACK decoder as an abstract parameter `Q : Qpack` (AQ.Model.Qpack):
+`Q.dec E blk` = what `feed_header` / `resume_header` answers for header block `blk`
+when the decoder has been fed the encoder-stream bytes `E` (headers / StreamBlocked /
+DecompressionFailed); `Q.encOk E` = `feed_encoder` accepts; validators and qlog are pure.
+`qpackOracle Q` is the stateful decoder built from it: state = (all encoder bytes fed,
+the blocked header blocks in arrival order, all decoder-stream bytes fed);
+`feed_encoder(x)` returns the ids whose pending block decodes with `E ++ x`.
+
+`QpackLaws Q` — the three laws used, each tested on the real `pylsqpack.Decoder` with
+genuine encoder output by `checks/c14.py` (section "qpack-laws"):
+  * `stable`: an answer other than StreamBlocked never changes when more encoder bytes arrive;
+  * `encErr` / `decErr`: once the encoder (decoder) stream is rejected it stays rejected.
+That the answers depend only on (block, CONCATENATION of the encoder bytes) — not on how
+the encoder stream was chunked, nor on the other streams — is built into the type of
+`Q.dec`; the correspondence section tests exactly this as well. -/
+
+/-- the order of `for stream_id in unblocked_streams` (a Python `set`) is a parameter -/
+example : OrdOK id := ⟨fun _ _ => Iff.rfl, fun _ h => h⟩
+
+/-- "…not on how those bytes are split into deliveries, and not on how deliveries of
+    different streams are interleaved … including when header compression makes a request
+    wait for the encoder stream": ONE request/push stream and the QPACK encoder stream.
+
+    A schedule `l : List Step` is any sequence of `.req chunk fin` (delivery on the
+    stream) and `.enc bytes` (delivery on the encoder stream: `feed_encoder`, then the
+    stream is resumed if it is reported unblocked — `encStep`).  `runSched` runs it; an
+    error ends the run.  For ANY two schedules that deliver the same stream bytes
+    (`reqBytes`), the same FIN (`finOf`, nothing after the FIN: `WF`) and the same
+    encoder bytes (`encBytes`) — any chunking of either, any interleaving, the header
+    block at any position (HEADERS, trailers, PUSH_PROMISE), blocked any number of
+    times — both runs raise the same error, or end in the same `H3Stream`, the same
+    decoder state and events of the same normal form.
+
+    Hypotheses: `QpackLaws Q`; quirk-free parser; `hq`: no header block of THIS stream is
+    waiting at the start (blocks of other streams may be); `hok`: the encoder bytes are
+    accepted (otherwise the connection closes with 0x201 at a schedule-dependent point). -/
+theorem schedule_independent_stream (Q : Qpack) (cfg : Cfg) (hL : QpackLaws Q)
+    (ht : cfg.k.truncatedNoError = false) (hsil : cfg.k.silentFrameNoEnd = false)
+    (hlog : cfg.k.logDecode = false) (hpp : cfg.k.blockedPushAsHeaders = false)
+    {S : Stream} (hs : Fresh2 S) (q : QState) (hq : pendingBlock S.streamId q.pending = none)
+    (l1 l2 : List Step) (hwf1 : WF l1) (hwf2 : WF l2) (hreq : reqBytes l1 = reqBytes l2)
+    (hfin : finOf l1 = finOf l2) (henc : encBytes l1 = encBytes l2)
+    (hok : Q.encOk (q.enc ++ encBytes l1) = true) :
+    REq (runSched Q cfg S q l1) (runSched Q cfg S q l2) :=
+  sched_independent Q cfg hL ht hsil hlog hpp hs q hq l1 l2 hwf1 hwf2 hreq hfin henc hok
+
+/-- the canonical form behind it: every schedule equals ONE delivery of all the stream
+    bytes to a decoder that already knows ALL the encoder bytes -/
+theorem schedule_canonical_stream (Q : Qpack) (cfg : Cfg) (hL : QpackLaws Q)
+    (ht : cfg.k.truncatedNoError = false) (hsil : cfg.k.silentFrameNoEnd = false)
+    (hlog : cfg.k.logDecode = false) (hpp : cfg.k.blockedPushAsHeaders = false)
+    {S : Stream} (hs : Fresh2 S) (q : QState) (hq : pendingBlock S.streamId q.pending = none)
+    (l : List Step) (hwf : WF l) (hok : Q.encOk (q.enc ++ encBytes l) = true) :
+    REq (runSched Q cfg S q l)
+      (recvReq (qpackOracle Q) cfg S (q.ext (encBytes l)) (reqBytes l) (finOf l)) :=
+  sched_canon' Q cfg hL ht hsil hlog hpp hs q hq l hwf hok
+
+/-- **Several request/push streams and the encoder stream, any two schedules.**
+    Machine `runM` (AQ.Proofs.H3Multi): a table of `H3Stream`s by stream id, ONE decoder;
+    `.req i chunk fin` = `_receive_request_or_push_data` on stream `i`; `.enc x` =
+    `feed_encoder(x)` followed by `for stream_id in unblocked_streams:` (skip a stream
+    that is not blocked, resume the others) in an arbitrary visiting order `ord`
+    (`OrdOK`: a permutation without repetition — the code iterates a `set`).
+    `SameBytes l1 l2`: per stream the same bytes and FIN, nothing after a FIN, the same
+    encoder bytes.  `Init m0`: nothing received yet, no block waiting.
+
+    If both runs succeed then, STREAM BY STREAM: the same `H3Stream`, the same view of the
+    decoder (`view j` = encoder bytes + the stream's own pending block; the ORDER of the
+    pending list across streams is schedule dependent), and the events its parser
+    produced (`L j`) have the same normal form.  The order of events of DIFFERENT
+    streams is schedule dependent by nature.
+
+    `_partial`: this is the machine; `handle_event` (stream table, `is_ended()` clean-up,
+    stream-type demultiplexer) is shown to refine it in AQ.Proofs.H3Lift (`lift_run`), which
+    gives `schedule_independent_connection_partial` below — see there for what is still
+    missing.  The stream table itself is NOT schedule independent:
+    `stale_entry_counterexample`. -/
+theorem schedule_independent_streams_partial (Q : Qpack) (cfg : Cfg) (hL : QpackLaws Q)
+    (ht : cfg.k.truncatedNoError = false) (hsil : cfg.k.silentFrameNoEnd = false)
+    (hlog : cfg.k.logDecode = false) (hpp : cfg.k.blockedPushAsHeaders = false)
+    {m0 : MState} (h0 : Init m0) {l1 l2 : List MStep} (hs : SameBytes l1 l2)
+    (hok : Q.encOk (m0.q.enc ++ encBytesM l1) = true) {ord1 ord2 : List Nat → List Nat}
+    (ho1 : OrdOK ord1) (ho2 : OrdOK ord2) (m1 m2 : MState)
+    (h1 : runM Q cfg ord1 m0 l1 = .ok m1) (h2 : runM Q cfg ord2 m0 l2 = .ok m2) :
+    m1.q.enc = m2.q.enc ∧ ∀ j, m1.T j = m2.T j ∧ view j m1.q = view j m2.q ∧ NEq (m1.L j) (m2.L j) :=
+  multi_independent_ok Q cfg hL ht hsil hlog hpp h0 hs hok ho1 ho2 m1 m2 h1 h2
+
+/-- **closed / not closed is schedule independent**: if one schedule ends in a
+    ProtocolError (the connection is closed) then so does every other schedule of the
+    same bytes; each close code is the error of ONE delivery of all the bytes of some
+    stream `j` to a decoder that knows all the encoder bytes.  WHICH stream's error
+    closes the connection depends on the schedule: `close_code_counterexample`. -/
+theorem closed_schedule_independent_partial (Q : Qpack) (cfg : Cfg) (hL : QpackLaws Q)
+    (ht : cfg.k.truncatedNoError = false) (hsil : cfg.k.silentFrameNoEnd = false)
+    (hlog : cfg.k.logDecode = false) (hpp : cfg.k.blockedPushAsHeaders = false)
+    {m0 : MState} (h0 : Init m0) {l1 l2 : List MStep} (hs : SameBytes l1 l2)
+    (hok : Q.encOk (m0.q.enc ++ encBytesM l1) = true) {ord1 ord2 : List Nat → List Nat}
+    (ho1 : OrdOK ord1) (ho2 : OrdOK ord2) (e : Err) (h1 : runM Q cfg ord1 m0 l1 = .error e) :
+    (∃ j, recvReq (qpackOracle Q) cfg (m0.T j) (m0.q.ext (encBytesM l1)) (reqBytes (proj j l1))
+        (finOf (proj j l1)) = .error e) ∧
+    ∃ e' j', runM Q cfg ord2 m0 l2 = .error e' ∧
+      recvReq (qpackOracle Q) cfg (m0.T j') (m0.q.ext (encBytesM l1)) (reqBytes (proj j' l1))
+        (finOf (proj j' l1)) = .error e' :=
+  multi_independent_err Q cfg hL ht hsil hlog hpp h0 hs hok ho1 ho2 e h1
+
+/-- **`H3Connection.handle_event`, any two schedules, connection not closed.**
+    Connection `c0` on which the peer's QPACK encoder stream `eid` has announced its type
+    (`EncEntry`: entry `se` with `stream_type = 2`, empty buffer) and no request stream
+    exists yet; `l1`, `l2` are schedules of deliveries on (bidirectional) request streams
+    and on the encoder stream (`Legal`: non-empty encoder deliveries) that deliver the same
+    bytes and FIN per stream and the same encoder bytes (`SameBytes`), each turned into
+    `StreamDataReceived` events (`evOf`) and run through `handle_event` (`runEvents`:
+    stream table, `_get_or_create_stream` with the `is_ended()` clean-up, the stream-type
+    demultiplexer, `feed_encoder`, the unblocked-stream loop).  If neither run closed the
+    connection: the returned events have the same normal form for EVERY stream (`NEq`),
+    the decoder knows the same encoder bytes and holds the same pending block per stream,
+    and the stream tables agree up to entries that are ended or never used
+    (`TableAgree`; they can differ there: `stale_entry_counterexample`).
+
+    `_partial`, what is missing for the first sentence of C14 at full strength: control,
+    QPACK-decoder, push, WebTransport and unknown unidirectional streams in the SAME
+    schedule (each of them alone: `uni_chunk_independent_partial`), the encoder stream's
+    own type byte and empty deliveries on it; `QpackLaws.stable` is an obligation of the
+    peer (`unstable_qpack_counterexample`). -/
+theorem schedule_independent_connection_partial (Q : Qpack) (cfg : Cfg) (hL : QpackLaws Q)
+    (ht : cfg.k.truncatedNoError = false) (hsil : cfg.k.silentFrameNoEnd = false)
+    (hlog : cfg.k.logDecode = false) (hpp : cfg.k.blockedPushAsHeaders = false)
+    (hke : cfg.k.unblockedKeyError = false) (eid : Nat) (se : H3.Stream) (hE : EncEntry eid se)
+    (c0 : Conn QState) (hd : c0.isDone = false) (hcfg : c0.cfg = cfg) (hstr : c0.streams = [(eid, se)])
+    (hp : c0.q.pending = []) {l1 l2 : List MStep} (hs : SameBytes l1 l2) (hl1 : Legal l1) (hl2 : Legal l2)
+    (hok : Q.encOk (c0.q.enc ++ encBytesM l1) = true) (c1 c2 : Conn QState) (d1 d2 : List Event)
+    (h1 : runEvents Q c0 (l1.map (evOf eid)) = .ok (c1, d1))
+    (h2 : runEvents Q c0 (l2.map (evOf eid)) = .ok (c2, d2))
+    (ho1 : c1.isDone = false) (ho2 : c2.isDone = false) :
+    NEq d1 d2 ∧ c1.q.enc = c2.q.enc ∧ (∀ j, view j c1.q = view j c2.q) ∧ ∀ j, j ≠ eid → TableAgree j c1 c2 := by
+  have hcl : ∀ l, Closed (m0Of c0) l := fun l j h => by simp [m0Of, Stream.new] at h
+  exact conn_independent_open Q cfg hL ht hsil hlog hpp hke eid se hE c0 hp (CRel_init cfg eid se c0 hd hcfg hstr) hs
+    (guarded_of Q cfg l1 _ hl1 hs.wf1 (hcl l1)) (guarded_of Q cfg l2 _ hl2 hs.wf2 (hcl l2)) hok c1 c2 d1 d2 h1 h2
+    ho1 ho2
+
+/-- **`handle_event`: closed / not closed is schedule independent** (same setting): if one
+    schedule closes the connection then no schedule of the same bytes leaves it open.  The
+    close code itself is schedule dependent (`close_code_counterexample`). -/
+theorem closed_schedule_independent_connection_partial (Q : Qpack) (cfg : Cfg) (hL : QpackLaws Q)
+    (ht : cfg.k.truncatedNoError = false) (hsil : cfg.k.silentFrameNoEnd = false)
+    (hlog : cfg.k.logDecode = false) (hpp : cfg.k.blockedPushAsHeaders = false)
+    (hke : cfg.k.unblockedKeyError = false) (eid : Nat) (se : H3.Stream) (hE : EncEntry eid se)
+    (c0 : Conn QState) (hd : c0.isDone = false) (hcfg : c0.cfg = cfg) (hstr : c0.streams = [(eid, se)])
+    (hp : c0.q.pending = []) {l1 l2 : List MStep} (hs : SameBytes l1 l2) (hl1 : Legal l1) (hl2 : Legal l2)
+    (hok : Q.encOk (c0.q.enc ++ encBytesM l1) = true) (c1 c2 : Conn QState) (d1 d2 : List Event)
+    (h1 : runEvents Q c0 (l1.map (evOf eid)) = .ok (c1, d1))
+    (h2 : runEvents Q c0 (l2.map (evOf eid)) = .ok (c2, d2)) (hc1 : c1.isDone = true) : c2.isDone = true := by
+  have hcl : ∀ l, Closed (m0Of c0) l := fun l j h => by simp [m0Of, Stream.new] at h
+  exact conn_independent_closed Q cfg hL ht hsil hlog hpp hke eid se hE c0 hp (CRel_init cfg eid se c0 hd hcfg hstr) hs
+    (guarded_of Q cfg l1 _ hl1 hs.wf1 (hcl l1)) (guarded_of Q cfg l2 _ hl2 hs.wf2 (hcl l2)) hok c1 c2 d1 d2 h1 h2
+    hc1
+
+/-! ### what IS schedule dependent (the stronger statements are false) -/
+
+/-- final connection of a sequence of deliveries (`blockingOracle`) -/
+def finalConn (c : Conn Bool) : List QuicEvent → Option (Conn Bool)
+  | [] => some c
+  | ev :: r =>
+    match handleEvent blockingOracle c ev with
+    | .error _ => none
+    | .ok (c', _) => finalConn c' r
+
+/-- "the same close code for every schedule" is FALSE: stream 0 = `DATA` before `HEADERS`
+    (`00 00`, H3_FRAME_UNEXPECTED 0x105), stream 4 = `01` + FIN (truncated frame,
+    H3_FRAME_ERROR 0x106); the stream delivered first decides. -/
+theorem close_code_counterexample :
+    (finalConn (Conn.init (client {}) true)
+      [.streamData 0 [0x00, 0x00] false, .streamData 4 [0x01] true]).map (·.closeCode) = some (some 0x105) ∧
+    (finalConn (Conn.init (client {}) true)
+      [.streamData 4 [0x01] true, .streamData 0 [0x00, 0x00] false]).map (·.closeCode) = some (some 0x106) := by
+  decide +kernel
+
+/-- …and on ONE stream, the control stream: `00 0d 01 05` + FIN (server) closes with
+    H3_CLOSED_CRITICAL_STREAM (0x104) in one delivery and with H3_MISSING_SETTINGS (0x10a)
+    when the FIN is delivered alone (the frame is then handled first). -/
+theorem control_fin_counterexample :
+    (finalConn (Conn.init { isClient := false } true)
+      [.streamData 2 [0x00, 0x0d, 0x01, 0x05] true]).map (·.closeCode) = some (some 0x104) ∧
+    (finalConn (Conn.init { isClient := false } true)
+      [.streamData 2 [0x00, 0x0d, 0x01, 0x05] false, .streamData 2 [] true]).map (·.closeCode) =
+        some (some 0x10a) := by
+  decide +kernel
+
+/-- a decoder whose answer changes AFTER the block was decodable (an encoder that evicts an
+    entry the block references): violates `QpackLaws.stable` -/
+def evictQ : Qpack where
+  dec E _ := if E = [] then .blocked else if E.length = 1 then .headers [([0x3a, 0x73], [0x32])] else .failed
+  encOk _ := true
+  decInOk _ := true
+  validate _ _ := .ok none
+  logOk _ := true
+
+def obsQ (r : Res QState) : Err ⊕ Norm :=
+  match r with
+  | .error e => .inl e
+  | .ok (_, _, evs) => .inr (normOf 0 evs)
+
+/-- `QpackLaws.stable` is NECESSARY: with `evictQ`, the stream `HEADERS(00)` + FIN and the
+    encoder bytes `aa`, `bb`: request between the two encoder deliveries = headers and end
+    of stream; request after both = QPACK_DECOMPRESSION_FAILED (0x200).  The first sentence
+    of C14 is therefore false against a peer whose encoder stream is not conformant. -/
+theorem unstable_qpack_counterexample :
+    obsQ (runSched evictQ (client {}) (Stream.new 0) {}
+      [.enc [0xaa], .req [0x01, 0x01, 0x00] true, .enc [0xbb]]) =
+        .inr (normOf 0 [.headers [([0x3a, 0x73], [0x32])] 0 true none]) ∧
+    obsQ (runSched evictQ (client {}) (Stream.new 0) {}
+      [.enc [0xaa], .enc [0xbb], .req [0x01, 0x01, 0x00] true]) = .inl (.h3 0x200) := by
+  decide +kernel
+
+/-- header blocks need one (any) encoder-stream byte -/
+def demoQ : Qpack where
+  dec E _ := if E = [] then .blocked else .headers [([0x3a, 0x73], [0x32])]
+  encOk _ := true
+  decInOk _ := true
+  validate _ _ := .ok none
+  logOk _ := true
+
+/-- the laws are satisfiable: `demoQ` has them -/
+theorem demoQ_laws : QpackLaws demoQ := by
+  refine ⟨?_, ?_, ?_⟩
+  · intro E x blk h
+    have hE : E ≠ [] := by
+      intro e; apply h; simp [demoQ, e]
+    have hx : E ++ x ≠ [] := by
+      intro e; exact hE (List.append_eq_nil_iff.mp e).1
+    simp [demoQ, hE, hx]
+  · intro E x h; simp [demoQ] at h
+  · intro E x h; simp [demoQ] at h
+
+def finalQ (c : Conn QState) : List QuicEvent → Option (Conn QState × List Event)
+  | [] => some (c, [])
+  | ev :: r =>
+    match handleEvent (qpackOracle demoQ) c ev with
+    | .error _ => none
+    | .ok (c', evs) => (finalQ c' r).map (fun x => (x.1, evs ++ x.2))
+
+/-- the client has sent its request with FIN on stream 0 -/
+def sentConn : Conn QState :=
+  { Conn.init (client {}) {} with
+    streams := [(0, { Stream.new 0 with sendingEnded := true, sendState := .afterHeaders })] }
+
+/-- "the same final connection state for every schedule" is FALSE for the stream table:
+    response `HEADERS` + FIN on stream 0 and the encoder stream (3: `02 00`).  Encoder
+    stream first: the response completes inside `_get_or_create_stream`, the stream is
+    popped.  Response first: it blocks, is resumed by the encoder-stream delivery —
+    whose clean-up looks at stream 3 only — and the ended stream 0 STAYS in
+    `H3Connection._stream`.  Same events, same end of stream; the entry is never used
+    again (QUIC delivers nothing after the FIN). -/
+theorem stale_entry_counterexample :
+    (finalQ sentConn [encStream, .streamData 0 [0x01, 0x01, 0x00] true]).map
+        (fun x => x.1.streams.map (·.1)) = some [3] ∧
+    (finalQ sentConn [.streamData 0 [0x01, 0x01, 0x00] true, encStream]).map
+        (fun x => x.1.streams.map (·.1)) = some [0, 3] ∧
+    (finalQ sentConn [encStream, .streamData 0 [0x01, 0x01, 0x00] true]).map (fun x => normOf 0 x.2) =
+      (finalQ sentConn [.streamData 0 [0x01, 0x01, 0x00] true, encStream]).map (fun x => normOf 0 x.2) ∧
+    (finalQ sentConn [.streamData 0 [0x01, 0x01, 0x00] true, encStream]).map
+        (fun x => (normOf 0 x.2).ended) = some true := by
+  decide +kernel
 
 /-! ## the stream table -/
 
@@ -383,8 +653,7 @@ theorem frame_roundtrip_unconditional (t : Nat) (d b r : Bytes) (h : encodeFrame
     validator accepts it with a content-length equal to the body size or none:
     the events have exactly one header block `hs`, body `d`, and the stream is
     ended — for every body size and every write pattern. -/
-theorem send_recv_roundtrip (o : Oracle σ) (cfg : Cfg) (hnb : NonBlocking o)
-    (ht : cfg.k.truncatedNoError = false) (hsil : cfg.k.silentFrameNoEnd = false)
+theorem send_recv_roundtrip (o : Oracle σ) (cfg : Cfg) (ht : cfg.k.truncatedNoError = false) (hsil : cfg.k.silentFrameNoEnd = false)
     (hlogq : cfg.k.logDecode = false) (hlog : cfg.logging = false)
     {s : Stream} (hs : Fresh s) (hst : s.p.recvState = .initial) (hecl : s.p.expectedCL = none)
     (hcl0 : s.p.contentLength = 0) (q q1 q2 : σ) (blk d fH fD : Bytes) (hdrs : Headers) (cl : Option Nat)
@@ -400,14 +669,13 @@ theorem send_recv_roundtrip (o : Oracle σ) (cfg : Cfg) (hnb : NonBlocking o)
   obtain ⟨s', evs, hw, hn⟩ := recv_headers_data o cfg varint_law hlog hs hst hecl hcl0 q q1 q2 blk d fH fD hdrs cl
     hfH hfD hdec hval hclv
   rw [← hb] at hw
-  obtain ⟨evs', hf, hn'⟩ := chunk_independent_events o cfg hnb ht hsil hlogq hs q chunks last true s' q2 evs hw
+  obtain ⟨evs', hf, hn'⟩ := chunk_independent_events o cfg ht hsil hlogq hs q chunks last true s' q2 evs hw
   exact ⟨s', evs', hf, (hn' _).trans hn⟩
 
 /-- the same for `send_headers(hs)`, ANY number of `send_data(dᵢ)` (bodies of any
     sizes, `EncData ds fs`), and `send_headers(trailers, end_stream=True)`, cut
     into any deliveries: header block, concatenated body, trailers, ended. -/
-theorem send_recv_roundtrip_trailers (o : Oracle σ) (cfg : Cfg) (hnb : NonBlocking o)
-    (ht : cfg.k.truncatedNoError = false) (hsil : cfg.k.silentFrameNoEnd = false)
+theorem send_recv_roundtrip_trailers (o : Oracle σ) (cfg : Cfg) (ht : cfg.k.truncatedNoError = false) (hsil : cfg.k.silentFrameNoEnd = false)
     (hlogq : cfg.k.logDecode = false) (hlog : cfg.logging = false)
     {s : Stream} (hs : Fresh s) (hst : s.p.recvState = .initial) (hecl : s.p.expectedCL = none)
     (hcl0 : s.p.contentLength = 0) (q q1 q2 q3 q4 : σ) (blk blkT fH fT : Bytes) (ds fs : List Bytes)
@@ -426,7 +694,7 @@ theorem send_recv_roundtrip_trailers (o : Oracle σ) (cfg : Cfg) (hnb : NonBlock
   obtain ⟨s', evs, hw, hn⟩ := recv_headers_datas_trailers o cfg varint_law hlog hs hst hecl hcl0 q q1 q2 q3 q4
     blk blkT fH fT ds fs hdrs hdrsT cl clT hfH hfs hfT hdec hval hdecT hvalT hclv
   rw [← hb] at hw
-  obtain ⟨evs', hf, hn'⟩ := chunk_independent_events o cfg hnb ht hsil hlogq hs q chunks last true s' q4 evs hw
+  obtain ⟨evs', hf, hn'⟩ := chunk_independent_events o cfg ht hsil hlogq hs q chunks last true s' q4 evs hw
   exact ⟨s', evs', hf, (hn' _).trans hn⟩
 
 /-- the hypotheses are satisfiable -/
